@@ -46,7 +46,8 @@ class Failure:
     kind: str  # e.g. "unsound-row", "missing-row", "crash", ...
     detail: str  # human readable observed vs expected
     signature: Optional[str] = None  # filled by classify()
-    case: Any = None
+    case: Any = None  # the (possibly narrowed) failing case, for the report
+    run_case: Any = None  # the element of the case list that run_case() was called with (what a replay re-runs)
 
     def to_json(self):
         return {"kind": self.kind, "detail": self.detail, "signature": self.signature,
@@ -121,6 +122,7 @@ def _worker_chunk(args):
         elif "fallback" not in out:
             out["fallback"] = {"case": repr(case)[:600]}
         for f in r.failures:
+            f.run_case = case
             f.case = case if f.case is None else f.case
             if f.signature is None and hasattr(mod, "classify"):
                 try:
@@ -264,6 +266,7 @@ def write_replay(mod, run: Run, f: Failure) -> str:
     d = os.path.join(REPLAY_DIR, run.property_id)
     os.makedirs(d, exist_ok=True)
     body = {"property": run.property_id, "case": jsonable(f.case), "case_repr": repr(f.case),
+            "run_case_repr": repr(f.run_case if f.run_case is not None else f.case),
             "kind": f.kind, "signature": f.signature, "detail": f.detail}
     if hasattr(mod, "repro"):
         try:
@@ -391,7 +394,7 @@ def main(mod, argv=None):
     if a.replay:
         with open(a.replay) as f:
             body = json.load(f)
-        only = [mod.case_from_json(body["case"]) if hasattr(mod, "case_from_json") else eval(body["case_repr"])]
+        only = [eval(body.get("run_case_repr") or body["case_repr"], {"inf": float("inf"), "nan": float("nan")})]
     try:
         run = execute(mod, a.tier, seed, mutant=a.mutant, workers=a.workers, only_cases=only)
         code = report(mod, run, scratch=bool(a.mutant or a.replay))
